@@ -78,12 +78,14 @@ def variantOf (name : String) : Option Nat :=
   let i := lowerNames.idxOf name
   if i < lowerNames.length then some i else none
 
-def handleLevel (ty : String) (l : Int) (impl : String) : String :=
+def handleLevel (ty : String) (l : Int) (impl : String) (nobz : Bool := false) : String :=
   match variantOf ty with
   | none => badReq "type"
   | some v =>
     let m :=
       if !levelRepresentable v l then "unrepresentable"
+      -- rpm-rs built without its bzip2 feature refuses the type (`UnsupportedCompressorType`) whatever the level
+      else if nobz && ty == "bzip2" then "err"
       else match compressorConstruct (fun _ _ => .ok ()) v l with
         | .ok _ => "ok" | .err _ => "err" | .panic _ => "panic"
     let verdict :=
@@ -97,7 +99,7 @@ def handleLevel (ty : String) (l : Int) (impl : String) : String :=
       else match lookup3 Gen.levelAccepted v with
         | none => "no-level"
         | some (lo, hi) => if l < lo then "below" else if hi < l then "above" else if l == lo || l == hi then "edge" else "inside"
-    answer m verdict ("level:" ++ ty ++ ":" ++ region)
+    answer m verdict ((if nobz then "levelnb:" else "level:") ++ ty ++ ":" ++ region)
 
 def inCore (secs : Int) : Bool := -2199023255552 ≤ secs && secs ≤ 2199023255552
 
@@ -186,6 +188,10 @@ def handle (op : String) (args : List String) (impl : String) : String :=
     match l.toInt? with
     | some n => handleLevel ty n impl
     | none => badReq "level"
+  | "levelnb", [ty, l] =>
+    match l.toInt? with
+    | some n => handleLevel ty n impl (nobz := true)
+    | none => badReq "level"
   | "tsset", [setter, kind, s, n] =>
     match s.toInt?, n.toNat? with
     | some secs, some nanos => handleTs setter kind secs nanos impl
@@ -200,6 +206,6 @@ def handle (op : String) (args : List String) (impl : String) : String :=
     | none => badReq "hex"
   | _, _ => badReq "op"
 
-def ops : List String := ["dest", "pcomps", "pparent", "pfilename", "pstrip", "pjoin", "level", "tsset", "capsset", "meta"]
+def ops : List String := ["dest", "pcomps", "pparent", "pfilename", "pstrip", "pjoin", "level", "levelnb", "tsset", "capsset", "meta"]
 
 end RpmVerif.Driver.C17
